@@ -104,6 +104,8 @@ def _c09(report, tier):
     from . import coqbuild
     ok, broken = coqbuild.check_property("C09", report)
     _slot_correspondence("C09", report, tier, SLOT_FAMILIES["C09"])
+    from . import overlaycorr
+    overlaycorr.run(report)
     n0 = len(report.violations)
     cov = vecprops.run_faults(tier, report)
     report.coverage.update(cov)
